@@ -1,5 +1,6 @@
 // Implementation-side harness: runs /repo's crates on case files, one case per line.
 mod buffer;
+mod cli;
 mod codec;
 
 use std::io::{BufRead, Write};
@@ -11,6 +12,7 @@ fn main() {
     let handler: fn(&[&str]) -> String = match comp.as_str() {
         "codec" => codec::handle,
         "buffer" => buffer::handle,
+        "cli" => cli::handle,
         _ => {
             eprintln!("unknown component {comp}");
             std::process::exit(2);
